@@ -19,7 +19,7 @@ static int run_case(int which, long a, long b) {
     switch (which) { case 0: r = myth_nanosleep(&rq, 0); break; case 1: r = myth_usleep((useconds_t)a); break; default: r = (int)myth_sleep((unsigned)a); break; }
     _exit(r == 0 ? 0 : r == EINVAL ? 1 : 2);
   }
-  int st = 0; waitpid(pid, &st, 0);
+  int st = 0; if (sq_wait_child(pid, 90, &st)) return -1;
   if (!WIFEXITED(st)) return -1;
   return WEXITSTATUS(st);
 }
